@@ -99,6 +99,9 @@ COARSE = [('aligned_2h_T4', dict(T=4, coarse='2h', win=None)), ('unaligned_tail_
           ('window_inside_T6', dict(T=6, coarse='2h', win=(1, 5))), ('straddles_start', dict(T=4, coarse='2h', win=(-1, 5))),
           ('straddles_end_3h', dict(T=5, coarse='3h', win=(1, 9))), ('far_before', dict(T=4, coarse='2h', win=(-5, 3))),
           ('halfhour_to_hour', dict(T=5, coarse='h', win=None, freq='30min')),
+          # anchored frequencies: the first interval (before the first anchor: Sunday / first of the month) is shorter, not lost
+          ('weekly_on_daily_grid_start_monday', dict(T=10, coarse='W', win=None, freq='d')),
+          ('weekly_window_mid_week', dict(T=14, coarse='W', win=(2, 12), freq='d')),
           ('ends_inside_unaligned_T6', dict(T=6, coarse='2h', win=(1, 4))), ('ends_inside_unaligned_3h_T8', dict(T=8, coarse='3h', win=(2, 6)))]
 
 
